@@ -197,7 +197,7 @@ theorem rfc_accounts (cfg : StreamCfg) (req : ReqInfo) (w : Wire) (st : Status) 
           | ok a t r' =>
             have := specChunked_inv _ _ _ _ _ _ _ _ hc
             simp only [hc, finishChunkedSpec] at h ⊢
-            cases hpf : parseFields true f' t with
+            cases hpf : parseFields false f' t with
             | none => simp [hpf, specOf] at h
             | some f2 => simp only [specOf]; rw [this]; exact hinv
         | close =>
